@@ -73,6 +73,28 @@ def _admissible(spec: Spec, kind: str, j: int, rel: str) -> bool:
     return True
 
 
+def _whole_closure(spec: Spec, j: int) -> T.Set[int]:
+    """Libraries whose objects are inside library j because of link_whole (transitively), j included."""
+    out = {j}
+    for p, r in spec[j].uses:
+        if r == 'link_whole':
+            out |= _whole_closure(spec, p)
+    return out
+
+
+def _double_whole(spec: Spec, uses: T.Sequence[T.Tuple[int, str]]) -> bool:
+    """link_whole of two libraries that contain the same objects defines every symbol twice: a mistake of the project,
+    not a build-graph matter."""
+    seen: T.Set[int] = set()
+    for p, r in uses:
+        if r == 'link_whole':
+            c = _whole_closure(spec, p)
+            if c & seen:
+                return True
+            seen |= c
+    return False
+
+
 def enumerate_specs(k: int, kinds: T.Sequence[str] = KINDS, max_uses: int = 2,
                     lib_variants: T.Sequence[str] = ('static', 'shared', 'both')) -> T.Iterator[Spec]:
     """All projects with 1..k nodes.  Every node except the last must be used by a later node (otherwise the project
@@ -108,8 +130,38 @@ def enumerate_specs(k: int, kinds: T.Sequence[str] = KINDS, max_uses: int = 2,
                             continue
                         subsets.append(comb)
                 for uses in subsets:
+                    if _double_whole(spec, uses):
+                        continue
                     yield from extend(spec + (Node(kind, var, uses),), remaining - 1)
     yield from extend((), k)
+
+
+def chain_specs() -> T.List[Spec]:
+    """4- and 5-node link chains (beyond the exhaustive 3-node bound): a library with a generator()-made header among its
+    sources, one or two libraries linking to it in a row, and a consumer at the end; every source along the chain includes
+    that header (through the owner's private directory)."""
+    out: T.List[Spec] = []
+    for v1 in ('static', 'shared'):
+        for v2 in ('static', 'shared'):
+            for r12 in ('link_with', 'link_whole'):
+                for cons in (('E', 'plain', 'link_with'), ('E', 'plain', 'dep_link'), ('L', 'shared', 'link_with'), ('L', 'static', 'link_whole'), ('L', 'static', 'link_with')):
+                    for depth in (1, 2, 3):
+                        spec: T.List[Node] = [Node('G', 'hdr', ()), Node('L', v1, ((0, 'src'),))]
+                        ok = True
+                        for lvl in range(depth - 1):
+                            prev = len(spec) - 1
+                            if not _admissible(tuple(spec), 'L', prev, r12):
+                                ok = False
+                                break
+                            spec.append(Node('L', v2, ((prev, r12),)))
+                        prev = len(spec) - 1
+                        if not ok or not _admissible(tuple(spec), cons[0], prev, cons[2]):
+                            continue
+                        spec.append(Node(cons[0], cons[1], ((prev, cons[2]),)))
+                        t = tuple(spec)
+                        if t not in out:
+                            out.append(t)
+    return out
 
 
 def placement_ok(spec: Spec, placement: str) -> bool:
@@ -169,9 +221,14 @@ def render(spec: Spec, placement: str = 'root', odd_names: bool = False, with_te
         return 'sub/' if loc == 'sub' else ''
 
     # what a C consumer needs from each producer
+    def is_ghdr(j: int) -> bool:
+        return spec[j].kind == 'G' and spec[j].variant == 'hdr'
+
     def c_include(j: int) -> T.Optional[str]:
         n = spec[j]
         loc = where(j, n)
+        if is_ghdr(j):
+            return nm(j, n) + '.h'        # lands in the private directory of the target that lists it (on that target's include path)
         if n.kind == 'H':
             return pfx(loc) + nm(j, n) + '.h'
         if n.kind == 'C':
@@ -184,7 +241,7 @@ def render(spec: Spec, placement: str = 'root', odd_names: bool = False, with_te
 
     def c_term(j: int) -> str:
         n = spec[j]
-        if n.kind in 'HCK':
+        if n.kind in 'HCK' or is_ghdr(j):
             return 'V_%s' % origin_macro(j)
         return 'f%s()' % nm(j, n)
 
@@ -196,13 +253,13 @@ def render(spec: Spec, placement: str = 'root', odd_names: bool = False, with_te
 
     def c_decl(j: int) -> str:
         n = spec[j]
-        if n.kind in 'SGL' and not (n.kind == 'S' and n.variant == 'two'):
+        if n.kind in 'SGL' and not (n.kind == 'S' and n.variant == 'two') and not is_ghdr(j):
             return 'int f%s(void);\n' % nm(j, n)
         return ''
 
     def value(j: int) -> int:
         n = spec[j]
-        if n.kind in 'HC':
+        if n.kind in 'HC' or is_ghdr(j):
             return 100 + j
         if n.kind == 'K':
             return value(n.uses[0][0])
@@ -211,6 +268,26 @@ def render(spec: Spec, placement: str = 'root', odd_names: bool = False, with_te
         if n.kind in 'LE':
             return 300 + j + sum(value(p) for p, r in n.uses)
         return 0
+
+    def linked_headers(j: int, seen: T.Optional[T.Set[int]] = None) -> T.Set[T.Tuple[int, int]]:
+        """(generator-made header, owning library) pairs among the sources of the libraries node j links to, transitively.
+        Only generator() outputs: for those the backend makes every (transitive) user of the library wait; a custom_target
+        header must be handed on with declare_dependency(sources:) instead (Generating-sources.md)."""
+        outp: T.Set[T.Tuple[int, int]] = set()
+        seen = seen if seen is not None else set()
+        for p, r in spec[j].uses:
+            if spec[p].kind == 'L' and r in ('link_with', 'link_whole', 'dep_link') and p not in seen:
+                seen.add(p)
+                for q, rq in spec[p].uses:
+                    if rq == 'src' and is_ghdr(q):
+                        outp.add((q, p))
+                outp |= linked_headers(p, seen)
+        return outp
+
+    def private_dir(j: int) -> str:
+        n = spec[j]
+        assert n.kind == 'L' and n.variant in ('static', 'shared')
+        return 'lib%s.%s.p' % (tname(j, n), 'a' if n.variant == 'static' else 'so')
 
     def gen_src_prelude(j: int) -> str:
         """A generated C source is compiled as part of its (single) consumer: it includes the generated headers that
@@ -256,6 +333,12 @@ def render(spec: Spec, placement: str = 'root', odd_names: bool = False, with_te
                            "command: [sh, '-c', 'cp \"$0\" \"$2\" && cp \"$1\" \"$3\"', '@INPUT0@', '@INPUT1@', '@OUTPUT0@', '@OUTPUT1@'])" % (me, me, me, me, me, me))
             else:
                 out.append("%s = custom_target('%s', input: '%s.c.in', output: '%s.c', command: [cp, '@INPUT@', '@OUTPUT@'])" % (me, me, me, me))
+        elif n.kind == 'G' and n.variant == 'hdr':
+            files[d + me + '.h.in'] = '#define V_%s %d\n' % (me.upper(), value(i))
+            if not gen_declared.get(loc + ':hdr'):
+                out.append("genhdr_%s = generator(cp, output: '@BASENAME@', arguments: ['@INPUT@', '@OUTPUT@'])" % loc)
+                gen_declared[loc + ':hdr'] = True
+            out.append("%s = genhdr_%s.process('%s.h.in')" % (me, loc, me))
         elif n.kind == 'G':
             files[d + me + '.in'] = gen_src_prelude(i) + 'int f%s(void) { return %d; }\n' % (me, value(i))
             if not gen_declared[loc]:
@@ -270,10 +353,9 @@ def render(spec: Spec, placement: str = 'root', odd_names: bool = False, with_te
                 out.append("%s = custom_target('%s', input: %s, output: '%s.%s', command: [cp, '@INPUT@', '@OUTPUT@'])" % (me, me, ref(p), me, ext))
             else:
                 # reads the producer's output without naming it as input: only `depends:` orders the two
-                ploc = where(p, pn)
-                ppath = pfx(ploc) + ref(p) + '.' + ext
-                out.append("%s = custom_target('%s', output: '%s.%s', command: [sh, '-c', 'cp \"%s\" \"$0\"', '@OUTPUT@'], depends: %s, depend_files: files('%s.stamp'))"
-                           % (me, me, me, ext, ppath, ref(p) + ('[0]' if rel == 'dependsidx' else ''), me))
+                # (the path comes from meson: it depends on the layout option)
+                out.append("%s = custom_target('%s', output: '%s.%s', command: [sh, '-c', 'cp \"$1\" \"$0\"', '@OUTPUT@', %s.full_path()], depends: %s, depend_files: files('%s.stamp'))"
+                           % (me, me, me, ext, ref(p) + ('[0]' if rel == 'dependsidx' else ''), ref(p) + ('[0]' if rel == 'dependsidx' else ''), me))
                 files[d + me + '.stamp'] = 'stamp\n'
         elif n.kind in 'LE':
             incs, decls, terms = [], [], []
@@ -303,7 +385,17 @@ def render(spec: Spec, placement: str = 'root', odd_names: bool = False, with_te
                 elif rel == 'dep_link':
                     out.append("%s_dep%d = declare_dependency(link_with: %s)" % (me, p, ref(p)))
                     kw.setdefault('dependencies', []).append('%s_dep%d' % (me, p))
+            # a library's generated headers are its public interface: whoever links to it (at any distance) may include them
+            lh_terms = []
+            for h, owner in sorted(linked_headers(i)):
+                # by its path below the build directory of this file (the owner sits in the same directory in every placement
+                # the chain family uses)
+                assert where(owner, spec[owner]) == loc
+                incs.append('#include "%s/%s"\n' % (private_dir(owner), c_include(h)))
+                lh_terms.append('V_%s' % origin_macro(h))
             body = ''.join(incs) + ''.join(decls)
+            if lh_terms:
+                body += 'enum { linked_headers_%d = %s };\n' % (i, ' + '.join(lh_terms))
             expr = ' + '.join(['%d' % (300 + i)] + terms)
             if n.kind == 'L':
                 body += 'int f%s(void) { return %s; }\n' % (me, expr)
